@@ -28,7 +28,13 @@ def main():
         checks = sys.argv[sys.argv.index("--checks") + 1].split(",")
     if "--tier" in sys.argv:
         tier = sys.argv[sys.argv.index("--tier") + 1]
-    out = "/tmp/seed/%s/_out" % pid
+    src = "/tmp/seed"
+    label = ""
+    if "--src" in sys.argv:
+        src = sys.argv[sys.argv.index("--src") + 1]
+    if "--label" in sys.argv:
+        label = sys.argv[sys.argv.index("--label") + 1] + "-"
+    out = "%s/%s/_out" % (src, pid)
     diff = os.path.join(out, "change%s.diff" % n)
     demo = os.path.join(out, "demo%s_test.go.txt" % n)
     meta_all = json.load(open(os.path.join(out, "meta.json")))
@@ -38,7 +44,7 @@ def main():
         print("refusing: /repo has uncommitted changes:\n" + o)
         return 2
     # ---- 1. confirm in a scratch worktree
-    wt = "/tmp/confirm/%s-%s" % (pid, n)
+    wt = "/tmp/confirm/%s-%s%s" % (pid, label, n)
     os.makedirs("/tmp/confirm", exist_ok=True)
     sh(["git", "-C", "/repo", "worktree", "remove", "--force", wt])
     rc, o = sh(["git", "-C", "/repo", "worktree", "add", wt, "HEAD"])
@@ -97,7 +103,7 @@ def main():
             sh(["git", "-C", "/repo", "checkout", "--", "."])
     print(json.dumps(verdicts, indent=1)[:3000])
     # ---- 3. keep it
-    dst = os.path.join(ROOT, "seeded", "%s-%s" % (pid, n))
+    dst = os.path.join(ROOT, "seeded", "%s-%s%s" % (pid, label, n))
     os.makedirs(dst, exist_ok=True)
     history = ""
     try:
